@@ -207,8 +207,11 @@ def r2_data_phase(report, repo):
                'image bytes only after the device answered DATA')
 
   # the local holding the size the device accepted (result of the DATA wait)
-  acc = lib.local_from(f, lib.calls(name='self._accept_responses'),
-                       'accepted_size')
+  acc = lib.local_from(f, lib.calls(name='self._accept_responses'), None)
+  if acc is None:
+    # the reply is parsed in the same statement that waits for it
+    acc = lib.local_from(f, lib.contains_call(name='self._accept_responses'),
+                         'accepted_size')
 
   def size_eq(s, l, d):
     if s.kind != 'test' or not isinstance(s.ast, ast.Compare) or \
@@ -463,3 +466,5 @@ def run(report, repo):
   report.guard(extra4.progress_shield_in_loop, report, repo, 'C16-R6')
   from sa.rules import extra4 as _x4  # pylint: disable=g-import-not-at-top
   report.guard(_x4.errors_do_not_reformat, report, repo, 'C16-R7')
+  from sa.rules import extra5 as _e5c  # pylint: disable=g-import-not-at-top
+  report.guard(_e5c.download_without_length_buffers, report, repo, 'C16-R8')
